@@ -324,7 +324,7 @@ def corr_parser(ck):
     from chython.files.daylight.parser import parser
     alpha = token_alphabet()
     # quick: every sequence of <= 3 of the 16 tokens, and every sequence of 4 of the first 9 (plain / aromatic / bracket atom, '=', '/', '(', ')', '.', closure 1)
-    lf, ls, nsmall = (3, 4, 9) if ck.tier == 'quick' else (4, 5, 12)
+    lf, ls, nsmall = (3, 4, 9) if ck.tier == 'quick' else (4, 5, 10)
     order = [0, 1, 5, 6, 8, 9, 10, 11, 2, 4, 12, 3, 7, 13, 14, 15]          # the reduced alphabet = the first nsmall of these
     alpha = [alpha[i] for i in order]
     extra = ('Import ListNotations. Open Scope Z_scope. Definition ta : list token := ' + clist(ctoken(f()) for f in alpha) + '. ' +
@@ -766,6 +766,25 @@ def chython_graph(mol):
     return atoms, bonds
 
 
+TOKEN_RE = re.compile(r'\[[^\]]*\]|Cl|Br|[BCNOPSFIcnopsb]|%[0-9][0-9]|%[0-9]$|[0-9]|\.')
+
+
+def bond_count_oracle(ck, s, mol):
+    """independent of model and RDKit: a molecule text with a atoms, d dots and r ring-closure digits denotes a graph with
+    a - 1 - d + r / 2 bonds (every atom but the first of a piece is joined to one earlier atom, every closure pair adds one)"""
+    toks = TOKEN_RE.findall(s)
+    a = sum(1 for t in toks if t[0] == '[' or t[0].isalpha())
+    d = toks.count('.')
+    r = sum(1 for t in toks if t[0] == '%' or t.isdigit())
+    want = a - 1 - d + r // 2
+    got = sum(len(v) for v in mol._bonds.values()) // 2
+    ck.case(('bondcount', s), nontrivial=got > 0)
+    if len(mol._atoms) != a or got != want or r % 2:
+        ck.counterexample(f'bond-count:{s}', 'the molecule built has another number of atoms / bonds than the text spells', {'smiles': s},
+                          {'atoms': len(mol._atoms), 'bonds': got}, {'atoms': a, 'bonds': want, 'closure digits': r}, 'counting atoms, dots and closure digits',
+                          replay_py=f"from chython import smiles\nm = smiles({s!r})\nprint(len(m), sum(len(v) for v in m._bonds.values()) // 2)")
+
+
 def rdkit_compare(ck, s, kind):
     """compare chython's and RDKit's reading of a molecule text on the common dialect. returns True when compared"""
     from chython.containers import MoleculeContainer
@@ -775,6 +794,8 @@ def rdkit_compare(ck, s, kind):
     if e is not None and not isinstance(e, ValueError):
         report_crash(ck, s, {}, e)
         return False
+    if mol is not None and isinstance(mol, MoleculeContainer) and not mol.meta.get('chython_parsing_log'):
+        bond_count_oracle(ck, s, mol)
     try:
         rd = rdkit_graph(s)
     except Exception:  # noqa
